@@ -19,4 +19,9 @@ pub fn all() {
     is::<Zobrist>(); // C18-A Zobrist
     is::<List<Zobrist>>(); // C18-A List<Zobrist>
     is::<List<u64>>(); // C18-A List<u64>
+    // the borrowed views handed out by the history list (whatever their type is called)
+    fn val<T: Send + Sync>(_: &T) {}
+    let l: List<Zobrist> = List::new();
+    val(&l.iter()); // C18-A the iterator returned by List::iter()
+    val(&l.head()); // C18-A the value returned by List::head()
 }
